@@ -740,9 +740,9 @@ def replay(run, path):
             verdict = "ok"
             if a == "nobuild" or err:
                 verdict = "DOES-NOT-BUILD: " + (err or "")[-400:].replace("\n", " ")
-            elif f[0] == "byname" and a.startswith("ok"):
+            elif f[0] in ("byname", "byid") and a.startswith("ok"):
                 si, sl = spec_lines([l], [a])
-                s = run_model(run, model, sl)[0]
+                s = run_model(run, model, sl)[0] if sl else "ok"
                 verdict = "ok" if (s == "ok" and a == m) else ("SPEC-VIOLATION" if s != "ok" else "DIFFERS")
             elif a != m:
                 verdict = "DIFFERS" if a.startswith("ok") else "FAULT"
